@@ -105,6 +105,7 @@ def required(tier):
     }
     for p in range(1, 7):
         req["ploidy_%d_cases" % p] = 100 * k
+    req["ploidy_above_20_cases"] = 20 * k
     for h in range(1, 8):
         req["haplotypes_%d_cases" % h] = 40 * k
     return req
@@ -209,6 +210,10 @@ def make_instance(rng, klass):
         # pooled / high-ploidy genotypes (e.g. three tetraploids pooled) with few haplotypes
         ploidy = int(rng.choice([8, 9, 10, 12, 16]))
         want = int(rng.integers(1, 4)) if ploidy <= 10 else int(rng.integers(1, 3))
+        if rng.random() < 0.3:
+            # large pools (32 tetraploids = ploidy 128): dose counters and binomials beyond 127 / 255 / the tables
+            ploidy = int(rng.choice([24, 32, 48, 63, 64, 65, 100, 127, 128, 129, 200, 256]))
+            want = 2 if (ploidy > 64 or rng.random() < 0.6) else 3
     if klass == "zerofreq":
         want = max(want, 2)
     haps, _ = gen.gen_haplotype_set(rng, want, n_pos, n_alleles=n_alleles)
@@ -346,6 +351,8 @@ def count_classes(I, O, col):
     col.count("function_cases")
     col.count("class_%s" % I["klass"])
     col.count("ploidy_%d_cases" % I["ploidy"])
+    if I["ploidy"] > 20:
+        col.count("ploidy_above_20_cases")
     col.count("haplotypes_%d_cases" % len(I["haps"]))
     col.count("sites_%d_cases" % I["haps"].shape[1])
     if I["haps"].shape[1] == 0:
